@@ -190,12 +190,15 @@ Definition bindings (s : rstate) : list (bytes * bytes) := map (fun kr => (fst k
 Definition dbproj (kr : bytes * rec) : bytes * bytes := (mac_affinity (fst kr), ip4_of (snd kr)).
 Definition is_key (kr : bytes * rec) : Prop := exists c, wf_bytes c /\ fst kr = mac_string c.
 Definition ip_ok (kr : bytes * rec) : Prop := to4 (rc_ip (snd kr)) = Some (ip4_of (snd kr)).
+(* the row the plugin keeps in leases4 for a record *)
+Definition dbrow (kr : bytes * rec) : row :=
+  {| r_mac := mac_affinity (fst kr); r_ip := ip4_of (snd kr); r_exp := rc_exp (snd kr); r_host := rc_host (snd kr) |}.
 
 Record rinv (s : rstate) : Prop := {
   ri_alloc : ainv4 (rs_alloc s);
   ri_keys : Forall is_key (rs_recs s);
   ri_nodup : NoDup (map fst (rs_recs s));
-  ri_db : map rowkey (rs_db s) = map dbproj (rs_recs s);
+  ri_db : rs_db s = map dbrow (rs_recs s);
   ri_ipok : Forall ip_ok (rs_recs s);
   ri_idx : exists idxs, map (fun kr => ip4_of (snd kr)) (rs_recs s) =
                         map (fun i => be_bytes 4 (a4_start (rs_alloc s) + i)) idxs /\
@@ -212,6 +215,39 @@ Qed.
 
 Lemma is_key_irrel k r r' : is_key (k, r) -> is_key (k, r').
 Proof. intros (c & W & E). exists c. split; assumption. Qed.
+
+Lemma rowkey_dbrow l : map rowkey (map dbrow l) = map dbproj l.
+Proof. rewrite map_map. reflexivity. Qed.
+
+Lemma db_upsert_map_new l k r rw : Forall is_key l -> is_key (k, r) -> ~ In k (map fst l) ->
+  rw = dbrow (k, r) -> db_upsert (map dbrow l) rw = map dbrow (l ++ [(k, r)]).
+Proof.
+  intros Hk K Hnk ->. rewrite map_app. cbn [map]. apply db_upsert_new.
+  rewrite rowkey_dbrow. intros Hc. apply in_map_iff in Hc. destruct Hc as ([k' r'] & Ek & Hkin).
+  unfold dbproj, rowkey, dbrow in Ek. cbn [fst snd r_mac r_ip] in Ek. injection Ek as Ek _.
+  rewrite Forall_forall in Hk. pose proof (Hk _ Hkin) as K1.
+  assert (k' = k) by (apply dbkey_inj; [exact (is_key_irrel _ _ _ K1)|exact (is_key_irrel _ _ _ K)|exact Ek]).
+  subst k'. apply Hnk. apply in_map_iff. exists (k, r'). split; [reflexivity|exact Hkin].
+Qed.
+
+Lemma db_upsert_map_upd l k r r0 rw : Forall is_key l -> is_key (k, r) ->
+  recs_get k l = Some r0 -> ip4_of r = ip4_of r0 -> rw = dbrow (k, r) ->
+  db_upsert (map dbrow l) rw = map dbrow (recs_set k r l).
+Proof.
+  intros Hk K G Hip ->. induction l as [|[k' r'] l IH]; cbn [recs_get] in G; [discriminate|].
+  cbn [map db_upsert recs_set]. destruct (bytes_eqb k' k) eqn:E.
+  - apply bytes_eqb_eq in E. subst k'. injection G as ->.
+    assert (E1 : bytes_eqb (r_mac (dbrow (k, r0))) (r_mac (dbrow (k, r))) = true) by (apply bytes_eqb_eq; reflexivity).
+    assert (E2 : bytes_eqb (r_ip (dbrow (k, r0))) (r_ip (dbrow (k, r))) = true).
+    { apply bytes_eqb_eq. unfold dbrow. cbn [r_ip snd]. symmetry. exact Hip. }
+    rewrite E1, E2. reflexivity.
+  - assert (Hne : bytes_eqb (r_mac (dbrow (k', r'))) (r_mac (dbrow (k, r))) = false).
+    { destruct (bytes_eqb (r_mac (dbrow (k', r'))) (r_mac (dbrow (k, r)))) eqn:E2; [|reflexivity]. exfalso.
+      apply bytes_eqb_eq in E2. unfold dbrow in E2. cbn [r_mac fst] in E2.
+      assert (k' = k) by (apply dbkey_inj; [exact (is_key_irrel _ _ _ (Forall_inv Hk))|exact (is_key_irrel _ _ _ K)|exact E2]).
+      subst k'. rewrite (proj2 (bytes_eqb_eq _ _) eq_refl) in E. discriminate. }
+    rewrite Hne. cbn [andb map]. f_equal. apply IH; [exact (Forall_inv_tail Hk)|exact G].
+Qed.
 
 Lemma be_bytes4_to4 x : to4 (be_bytes 4 x) = Some (be_bytes 4 x).
 Proof. unfold to4, lenb. rewrite be_bytes_length. reflexivity. Qed.
@@ -301,8 +337,8 @@ Proof.
         -- exact Ha.
         -- apply recs_set_Forall; [exact Hk|]. rewrite Forall_forall in Hk. exact (is_key_irrel _ _ _ (Hk _ Hin)).
         -- rewrite (recs_set_keys key rc' rc _ G). exact Hn.
-        -- rewrite (recs_set_upd dbproj key rc' rc _ G) by reflexivity.
-           rewrite db_upsert_upd; [exact Hdb|]. rewrite Hdb. apply in_map_iff. exists (key, rc). split; [reflexivity|exact Hin].
+        -- rewrite Hdb. rewrite Forall_forall in Hk.
+           apply (db_upsert_map_upd (rs_recs s) key rc' rc); [apply Forall_forall; exact Hk|exact (is_key_irrel _ _ _ (Hk _ Hin))|exact G|reflexivity|reflexivity].
         -- apply recs_set_Forall; [exact Hip|]. rewrite Forall_forall in Hip. exact (Hip _ Hin).
         -- exists idxs. rewrite (recs_set_upd (fun kr => ip4_of (snd kr)) key rc' rc _ G) by reflexivity.
            split; [exact Eidx|]. split; assumption.
@@ -339,14 +375,8 @@ Proof.
         -- exact Ha'.
         -- apply Forall_app. split; [exact Hk|]. constructor; [|constructor]. exists c. split; [exact W|reflexivity].
         -- rewrite map_app. cbn [map fst]. apply NoDup_app_single; assumption.
-        -- rewrite map_app. cbn [map]. rewrite db_upsert_new.
-           ++ rewrite map_app. cbn [map]. rewrite Hdb. reflexivity.
-           ++ rewrite Hdb. intros Hc. apply in_map_iff in Hc. destruct Hc as ([k' r'] & Ek & Hkin).
-              unfold dbproj, rowkey in Ek. cbn [fst snd r_mac r_ip rc_ip rc] in Ek. injection Ek as Ek _.
-              rewrite Forall_forall in Hk. pose proof (Hk _ Hkin) as K1.
-              assert (k' = key).
-              { apply dbkey_inj; [exact (is_key_irrel _ _ _ K1)|exists c; split; [exact W|reflexivity]|exact Ek]. }
-              subst k'. apply Hnk. apply in_map_iff. exists (key, r'). split; [reflexivity|exact Hkin].
+        -- rewrite Hdb. apply db_upsert_map_new; [exact Hk|exists c; split; [exact W|reflexivity]|exact Hnk|].
+           unfold dbrow, ip4_of. cbn [fst snd rc_ip rc_exp rc_host rc]. rewrite to4_or_nil_be4. reflexivity.
         -- apply Forall_app. split; [exact Hip|]. constructor; [|constructor].
            unfold ip_ok, ip4_of. cbn [snd rc_ip rc]. rewrite to4_or_nil_be4. apply be_bytes4_to4.
         -- exists (idxs ++ [x]). rewrite !map_app. cbn [map snd]. unfold ip4_of at 2. cbn [rc_ip rc].
@@ -369,4 +399,168 @@ Proof.
       split; [reflexivity|]. split; [destruct s; reflexivity|]. split; [reflexivity|].
       rewrite (rinv_count s I). exact Hfull.
     + exact A.
+Qed.
+
+(* ====================== restart on the database the plugin wrote ====================== *)
+From Coq Require Import Permutation.
+
+(* a record after a store/load round trip *)
+Definition norm (kr : bytes * rec) : bytes * rec :=
+  (fst kr, {| rc_ip := v4in6_prefix ++ ip4_of (snd kr); rc_exp := rc_exp (snd kr); rc_host := rc_host (snd kr) |}).
+Definition ip_len4 (kr : bytes * rec) : Prop := length (ip4_of (snd kr)) = 4%nat.
+
+Lemma to4_mapped b4 : length b4 = 4%nat -> to4 (v4in6_prefix ++ b4) = Some b4.
+Proof.
+  intros L. destruct b4 as [|a [|b [|c [|d [|? ?]]]]]; try discriminate L.
+  unfold to4, lenb. cbn [app length v4in6_prefix Nat.eqb andb firstn skipn]. reflexivity.
+Qed.
+
+Lemma ip4_of_norm kr : ip_len4 kr -> ip4_of (snd (norm kr)) = ip4_of (snd kr).
+Proof. intros L. unfold norm, ip4_of at 1, to4_or_nil. cbn [snd rc_ip]. rewrite to4_mapped by exact L. reflexivity. Qed.
+
+Lemma dbrow_norm kr : ip_len4 kr -> dbrow (norm kr) = dbrow kr.
+Proof. intros L. unfold dbrow. rewrite ip4_of_norm by exact L. reflexivity. Qed.
+
+Lemma load_records_spec l : forall acc, Forall is_key l -> Forall ip_len4 l -> NoDup (map fst l) ->
+  (forall k, In k (map fst l) -> ~ In k (map fst acc)) ->
+  load_records (map dbrow l) acc = Some (acc ++ map norm l).
+Proof.
+  induction l as [|[k r] l IH]; intros acc Hk Hl Nd Hd; cbn [map load_records]; [rewrite app_nil_r; reflexivity|].
+  pose proof (Forall_inv Hk) as (c & W & Ek). cbn [fst] in Ek. subst k.
+  cbn [r_mac r_ip r_exp r_host dbrow fst snd].
+  rewrite mac_db_roundtrip by exact W.
+  pose proof (Forall_inv Hl) as L4. unfold ip_len4 in L4. cbn [snd] in L4.
+  unfold lenb. rewrite L4. cbn [Nat.eqb].
+  rewrite recs_set_new.
+  2:{ apply recs_get_none. apply Hd. left. reflexivity. }
+  inversion Nd as [|? ? Hnin Nd']; subst.
+  rewrite IH.
+  - rewrite <- app_assoc. reflexivity.
+  - exact (Forall_inv_tail Hk).
+  - exact (Forall_inv_tail Hl).
+  - exact Nd'.
+  - intros k Hkin. rewrite map_app, in_app_iff. cbn [map fst In]. intros [H|[H|[]]].
+    + apply (Hd k); [right; exact Hkin|exact H].
+    + subst k. apply Hnin. exact Hkin.
+Qed.
+
+Lemma hint_idx4_mapped a i : ainv4 a -> i < n4 a ->
+  hint_idx4 a (v4in6_prefix ++ be_bytes 4 (a4_start a + i)) = i.
+Proof.
+  intros (H1 & H2 & _) Hi. unfold n4 in Hi. unfold hint_idx4, to_offset4.
+  rewrite to4_mapped by apply be_bytes_length.
+  assert (E : be_u32_of (be_bytes 4 (a4_start a + i)) = a4_start a + i).
+  { unfold be_u32_of. rewrite firstn_all2 by (rewrite be_bytes_length; lia).
+    rewrite be_val_be_bytes. change (256 ^ N.of_nat 4) with W32. apply N.mod_small. lia. }
+  rewrite E.
+  destruct ((a4_start a + i <? a4_start a) || (a4_end a <? a4_start a + i)) eqn:C; [lia|].
+  rewrite u32_sub_small by lia. lia.
+Qed.
+
+Lemma remark_spec l : forall a idxs, ainv4 a ->
+  map (fun kr => rc_ip (snd kr)) l = map (fun i => v4in6_prefix ++ be_bytes 4 (a4_start a + i)) idxs ->
+  NoDup idxs -> (forall i, In i idxs -> i < n4 a /\ ~ In i (bits (a4_bm a))) ->
+  exists a', remark a l = Ok a' /\ ainv4 a' /\ a4_start a' = a4_start a /\ a4_end a' = a4_end a /\
+             (forall i, In i (bits (a4_bm a')) <-> In i idxs \/ In i (bits (a4_bm a))).
+Proof.
+  induction l as [|[k r] l IH]; intros a idxs Ha E Nd Hi.
+  - destruct idxs; [|cbn in E; discriminate E]. exists a. cbn [remark In].
+    split; [reflexivity|]. split; [exact Ha|]. split; [reflexivity|]. split; [reflexivity|]. intros i; tauto.
+  - destruct idxs as [|i idxs]; [cbn in E; discriminate E|]. cbn [map snd] in E.
+    assert (Er : rc_ip r = v4in6_prefix ++ be_bytes 4 (a4_start a + i)) by congruence.
+    assert (E' : map (fun kr => rc_ip (snd kr)) l = map (fun i => v4in6_prefix ++ be_bytes 4 (a4_start a + i)) idxs) by congruence.
+    clear E. rename E' into E.
+    cbn [remark snd]. rewrite Er.
+    destruct (Hi i (or_introl eq_refl)) as [Hlt Hfree].
+    pose proof (allocate4_spec a (v4in6_prefix ++ be_bytes 4 (a4_start a + i)) Ha) as A.
+    rewrite hint_idx4_mapped in A by assumption.
+    destruct (allocate4 a (v4in6_prefix ++ be_bytes 4 (a4_start a + i))) as [a1 [ip|e|]].
+    + destruct A as (x & -> & Hx & Hxf & Eb & Ha1 & Es & Ee & Hh).
+      specialize (Hh Hfree). subst x.
+      unfold to4_or_nil. rewrite to4_mapped by apply be_bytes_length.
+      rewrite (proj2 (bytes_eqb_eq _ _) eq_refl).
+      inversion Nd as [|? ? Hnin Nd']; subst.
+      destruct (IH a1 idxs Ha1) as (a' & R & Ha' & Es' & Ee' & Hb').
+      * rewrite Es. exact E.
+      * exact Nd'.
+      * intros j Hj. destruct (Hi j (or_intror Hj)) as [Hjl Hjf]. unfold n4 in *. rewrite Es, Ee. split; [exact Hjl|].
+        rewrite Eb. intros [Hc|Hc]; [subst j; contradiction|contradiction].
+      * exists a'. split; [exact R|]. split; [exact Ha'|]. split; [congruence|]. split; [congruence|].
+        intros j. rewrite Hb', Eb. cbn [In]. split; intros H; intuition.
+    + exfalso. destruct A as (_ & _ & Hfull). destruct Ha as (_ & _ & Hb).
+      exact (Hfree (proj2 (full_iff_count _ _ Hb) Hfull i Hlt)).
+    + contradiction.
+Qed.
+
+Lemma remark_bits_subset l : forall a a', remark a l = Ok a' -> True.
+Proof. trivial. Qed.
+
+(* the static configuration a state was set up with *)
+Definition cfg_ok (s e : bytes) (st : rstate) : Prop :=
+  exists s4 e4 a0, to4 s = Some s4 /\ to4 e = Some e4 /\ (be_u32_of e4 <=? be_u32_of s4) = false /\
+    new4 s e = Ok a0 /\ ainv4 a0 /\ bits (a4_bm a0) = [] /\
+    a4_start (rs_alloc st) = a4_start a0 /\ a4_end (rs_alloc st) = a4_end a0.
+
+Lemma rinv_ip_len4 st : rinv st -> Forall ip_len4 (rs_recs st).
+Proof.
+  intros [_ _ _ _ Hip _]. eapply Forall_impl; [|exact Hip]. intros kr H. unfold ip_ok in H.
+  unfold ip_len4. exact (to4_length _ _ H).
+Qed.
+
+(* Restarting on the database written so far succeeds and restores exactly the bindings,
+   for every order in which the stored leases are re-marked. *)
+Lemma restart_ok ord s e lease st : (forall l, Permutation l (ord l)) ->
+  rinv st -> cfg_ok s e st ->
+  exists st', range_setup_ord ord s e lease (rs_db st) = Ok st' /\ rinv st' /\ cfg_ok s e st' /\
+              rs_lease st' = lease /\ rs_db st' = rs_db st /\
+              rs_recs st' = map norm (rs_recs st) /\ bindings st' = bindings st.
+Proof.
+  intros Hord I (s4 & e4 & a0 & Es & Ee & Hlt & Hnew & Ha0 & Hb0 & Hs0 & He0).
+  pose proof I as [Ha Hk Hn Hdb Hip (idxs & Eidx & Nd & Hi)].
+  pose proof (rinv_ip_len4 st I) as Hl4.
+  unfold range_setup_ord. rewrite Es, Ee, Hlt, Hnew, Hdb.
+  rewrite (load_records_spec (rs_recs st) []); [|exact Hk|exact Hl4|exact Hn|intros k _ []].
+  cbn [app].
+  (* the re-marking loop over a permutation of the loaded records *)
+  set (recs' := map norm (rs_recs st)).
+  pose proof (Hord recs') as P.
+  assert (Eips : map (fun kr => rc_ip (snd kr)) recs' =
+                 map (fun i => v4in6_prefix ++ be_bytes 4 (a4_start a0 + i)) idxs).
+  { unfold recs'. rewrite map_map. cbn [norm snd rc_ip]. rewrite <- Hs0.
+    rewrite <- (map_map (fun i => be_bytes 4 (a4_start (rs_alloc st) + i)) (fun b => v4in6_prefix ++ b)).
+    rewrite <- Eidx, map_map. reflexivity. }
+  (* transport the index list along the permutation *)
+  assert (Pm : Permutation (map (fun kr => rc_ip (snd kr)) recs') (map (fun kr => rc_ip (snd kr)) (ord recs')))
+    by (apply Permutation_map; exact P).
+  rewrite Eips in Pm.
+  destruct (Permutation_map_inv _ _ (Permutation_sym Pm)) as (idxs' & Eips' & Pi).
+  assert (Nd' : NoDup idxs') by (eapply Permutation_NoDup; [exact Pi|exact Nd]).
+  assert (Hbnd : forall i, In i idxs' -> i < n4 a0 /\ ~ In i (bits (a4_bm a0))).
+  { intros i Hi'. split; [|rewrite Hb0; intros []].
+    assert (In i idxs) by (eapply Permutation_in; [apply Permutation_sym; exact Pi|exact Hi']).
+    apply Hi in H. destruct Ha as (_ & _ & _ & _ & Hb). apply Hb in H. unfold n4 in *. rewrite <- Hs0, <- He0. exact H. }
+  destruct (remark_spec (ord recs') a0 idxs' Ha0 Eips' Nd' Hbnd) as (a' & R & Ha' & Es' & Ee' & Hb').
+  rewrite R. eexists. split; [reflexivity|].
+  assert (Eb : bindings {| rs_alloc := a'; rs_lease := lease; rs_recs := recs'; rs_db := map dbrow (rs_recs st) |} = bindings st).
+  { unfold bindings, recs'. cbn [rs_recs]. rewrite map_map. apply map_ext_in. intros kr Hin.
+    rewrite Forall_forall in Hl4. rewrite ip4_of_norm by (apply Hl4; exact Hin). reflexivity. }
+  split; [|split; [|split; [reflexivity|split; [reflexivity|split; [reflexivity|exact Eb]]]]].
+  - constructor; cbn [rs_alloc rs_recs rs_db].
+    + exact Ha'.
+    + unfold recs'. apply Forall_forall. intros kr Hin. apply in_map_iff in Hin. destruct Hin as (kr0 & <- & Hin0).
+      rewrite Forall_forall in Hk. destruct (Hk _ Hin0) as (c & W & Ec). exists c. split; [exact W|exact Ec].
+    + unfold recs'. rewrite map_map. cbn [norm fst]. exact Hn.
+    + unfold recs'. rewrite map_map. apply map_ext_in. intros kr Hin. symmetry. apply dbrow_norm.
+      rewrite Forall_forall in Hl4. apply Hl4. exact Hin.
+    + unfold recs'. apply Forall_forall. intros kr Hin. apply in_map_iff in Hin. destruct Hin as (kr0 & <- & Hin0).
+      rewrite Forall_forall in Hl4. pose proof (Hl4 _ Hin0) as L. unfold ip_ok. rewrite ip4_of_norm by exact L.
+      unfold norm. cbn [snd rc_ip]. apply to4_mapped. exact L.
+    + exists idxs. split; [|split; [exact Nd|]].
+      * unfold recs'. rewrite map_map. rewrite Es', <- Hs0, <- Eidx. apply map_ext_in. intros kr Hin.
+        rewrite Forall_forall in Hl4. apply ip4_of_norm. apply Hl4. exact Hin.
+      * intros i. rewrite Hb', Hb0. cbn [In]. split; [intros H; left; eapply Permutation_in; [exact Pi|exact H]|].
+        intros [H|[]]. eapply Permutation_in; [apply Permutation_sym; exact Pi|exact H].
+  - exists s4, e4, a0. cbn [rs_alloc].
+    split; [exact Es|]. split; [exact Ee|]. split; [exact Hlt|]. split; [exact Hnew|]. split; [exact Ha0|].
+    split; [exact Hb0|]. split; [exact Es'|exact Ee'].
 Qed.
